@@ -139,8 +139,14 @@ func (se *SpecEnv) eval(e SExpr, hint types.Type) Val {
 		}
 		sfail("cast %s -> %s", x.T, t)
 	case SSelector:
+		if a, t, ok := se.place(e); ok {
+			return se.loadPlace(t, a)
+		}
 		return se.selector(e)
 	case SIndex:
+		if a, t, ok := se.place(e); ok {
+			return se.loadPlace(t, a)
+		}
 		x := se.eval(e.X, nil)
 		return se.index(x, e.I)
 	case SSlice:
@@ -211,7 +217,11 @@ func (se *SpecEnv) evalPair(a, b SExpr, hint types.Type) (Val, Val) {
 		return x, y
 	}
 	x := se.eval(a, hint)
-	y := se.eval(b, hint)
+	h := hint
+	if h == nil {
+		h = x.T
+	}
+	y := se.eval(b, h)
 	return x, y
 }
 
@@ -765,6 +775,45 @@ func (se *SpecEnv) call(e SCall, hint types.Type) Val {
 		k := se.eval(e.Args[1], mt.Key())
 		h, _ := f.mapGet(se.state(), mt, m.L[0], k.L[0])
 		return boolVal(and(not(eq(m.L[0], "0")), h))
+	case "min", "max":
+		x, y := se.evalPair(e.Args[0], e.Args[1], hint)
+		if !isInteger(x.T) || intWidth(x.T) != intWidth(y.T) {
+			sfail("%s on %s and %s", e.Fun, x.T, y.T)
+		}
+		op := "bvult"
+		if isSigned(x.T) {
+			op = "bvslt"
+		}
+		c := "(" + op + " " + x.L[0] + " " + y.L[0] + ")"
+		if e.Fun == "max" {
+			c = "(" + op + " " + y.L[0] + " " + x.L[0] + ")"
+		}
+		return Val{T: x.T, L: []string{ite(c, x.L[0], y.L[0])}}
+	case "suffixof": // suffixof(a, b, k): a is exactly b[k:]
+		a := se.eval(e.Args[0], nil)
+		b := se.eval(e.Args[1], a.T)
+		k := se.idx(e.Args[2])
+		sl, ok := a.T.Underlying().(*types.Slice)
+		if !ok {
+			sfail("suffixof() on %s", a.T)
+		}
+		cs := []string{eq(a.L[0], b.L[0]), eq(a.L[3], "(bvsub "+b.L[3]+" "+k+")"), eq(a.L[4], "(bvsub "+b.L[4]+" "+k+")")}
+		if f.l.oneCell(sl.Elem()) {
+			cs = append(cs, eq(a.L[1], b.L[1]), eq(a.L[2], "(bvadd "+b.L[2]+" "+k+")"))
+		} else {
+			cs = append(cs, eq(a.L[2], b.L[2]), eq(a.L[1], "(bvadd "+b.L[1]+" "+k+")"))
+		}
+		return boolVal(and(cs...))
+	case "off": // position of a slice's first element within its backing object
+		x := se.eval(e.Args[0], nil)
+		sl, ok := x.T.Underlying().(*types.Slice)
+		if !ok {
+			sfail("off() on %s", x.T)
+		}
+		if f.l.oneCell(sl.Elem()) {
+			return Val{T: types.Typ[types.Int], L: []string{x.L[2]}}
+		}
+		return Val{T: types.Typ[types.Int], L: []string{x.L[1]}}
 	case "isnil":
 		x := se.eval(e.Args[0], nil)
 		return boolVal(eq(x.L[0], "0"))
@@ -808,6 +857,39 @@ func (se *SpecEnv) call(e SCall, hint types.Type) Val {
 	}
 	// user spec function: macro expansion
 	sf := f.eng.specFunc(se.pkg, e.Fun)
+	if sf == nil {
+		// a pure function of the program with a (trusted or proved) pure contract
+		key := e.Fun
+		if !strings.Contains(key, ".") && se.pkg != nil {
+			key = strings.TrimPrefix(se.pkg.Path(), modPath+"/") + "." + key
+		} else if i := strings.Index(key, "."); i > 0 && se.pkg != nil {
+			for _, imp := range se.pkg.Imports() {
+				if imp.Name() == key[:i] {
+					key = strings.TrimPrefix(imp.Path(), modPath+"/") + key[i:]
+				}
+			}
+		}
+		if con := f.eng.contracts[key]; con != nil && con.Pure {
+			fn := f.eng.fnByKey[key]
+			if fn == nil {
+				sfail("pure function %s is not part of the loaded program", key)
+			}
+			var args []Val
+			for i, a := range e.Args {
+				var pt types.Type
+				if i < fn.Signature.Params().Len() {
+					pt = fn.Signature.Params().At(i).Type()
+				}
+				args = append(args, se.eval(a, pt))
+			}
+			var rt types.Type = fn.Signature.Results()
+			if fn.Signature.Results().Len() == 1 {
+				rt = fn.Signature.Results().At(0).Type()
+			}
+			f.c.trusted["assumed contract "+key] = true
+			return f.pureResult(se.state(), key, args, rt, con.Reads)
+		}
+	}
 	if sf == nil {
 		sfail("unknown spec function %s", e.Fun)
 	}
@@ -864,6 +946,9 @@ func tzTerm(x string, w int) string {
 // addrOf evaluates an lvalue designator to its address and type.
 func (se *SpecEnv) addrOf(e SExpr) (Addr, types.Type) {
 	f := se.f
+	if pa, pt, ok := se.place(e); ok {
+		return pa.Addr, pt
+	}
 	switch e := e.(type) {
 	case SSelector:
 		x := se.eval(e.X, nil)
@@ -913,4 +998,151 @@ func (se *SpecEnv) addrOf(e SExpr) (Addr, types.Type) {
 	}
 	sfail("not an addressable designator: %v", e)
 	return Addr{}, nil
+}
+
+func placeLike(e SExpr) bool {
+	switch e.(type) {
+	case SSelector, SIndex, SDeref:
+		return true
+	}
+	return false
+}
+
+// loadPlace loads a value from a place, with the validity assumption for
+// values that live in real memory (outside quantifiers).
+func (se *SpecEnv) loadPlace(t types.Type, a placeAddr) Val {
+	v := se.load(t, a.Addr)
+	if se.qdepth == 0 && a.nonnil != "" {
+		if w := se.f.wf(se.state(), v); w != "true" {
+			se.f.c.assume(se.guard, implies(a.nonnil, w))
+		}
+	}
+	return v
+}
+
+type placeAddr struct {
+	Addr
+	nonnil string // condition under which the place is real memory ("" = unknown)
+}
+
+// place evaluates a selector/index chain to the address of the designated
+// cell without loading intermediate aggregates.
+func (se *SpecEnv) place(e SExpr) (placeAddr, types.Type, bool) {
+	f := se.f
+	switch e := e.(type) {
+	case SSelector:
+		// package-qualified identifiers are not places
+		if id, ok := e.X.(SIdent); ok {
+			if _, isVar := se.lookupVar(id.Name); !isVar {
+				return placeAddr{}, nil, false
+			}
+		}
+		var base placeAddr
+		var bt types.Type
+		if placeLike(e.X) {
+			pa, pt, ok := se.place(e.X)
+			if !ok {
+				return placeAddr{}, nil, false
+			}
+			if derefType(pt) != nil {
+				// pointer stored at a place: load it
+				pv := se.loadPlace(pt, pa)
+				base = placeAddr{ptrAddr(pv), not(eq(pv.L[0], "0"))}
+				bt = derefType(pt)
+			} else {
+				base, bt = pa, pt
+			}
+		} else {
+			v := se.eval(e.X, nil)
+			if v.Loc != nil {
+				return placeAddr{}, nil, false
+			}
+			if derefType(v.T) == nil {
+				return placeAddr{}, nil, false
+			}
+			base = placeAddr{ptrAddr(v), not(eq(v.L[0], "0"))}
+			bt = derefType(v.T)
+		}
+		if _, ok := bt.Underlying().(*types.Struct); !ok {
+			return placeAddr{}, nil, false
+		}
+		fi, ok := se.findField(bt, e.Name)
+		if !ok {
+			sfail("no field %s in %s", e.Name, bt)
+		}
+		return placeAddr{base.plusSub(fi.Off), base.nonnil}, fi.T, true
+	case SIndex:
+		if id, ok := e.I.(SIdent); ok && id.Name == "*" {
+			return placeAddr{}, nil, false
+		}
+		var xv Val
+		if placeLike(e.X) {
+			pa, pt, ok := se.place(e.X)
+			if !ok {
+				return placeAddr{}, nil, false
+			}
+			if arr, ok := pt.Underlying().(*types.Array); ok {
+				i := se.idx(e.I)
+				if f.l.cells(arr.Elem()) == 1 {
+					return placeAddr{Addr{pa.Ref, pa.Idx, bvadd(pa.Sub, i)}, ""}, arr.Elem(), true
+				}
+				return placeAddr{Addr{pa.Ref, bvadd(pa.Idx, i), pa.Sub}, ""}, arr.Elem(), true
+			}
+			xv = se.loadPlace(pt, pa)
+		} else {
+			xv = se.eval(e.X, nil)
+		}
+		switch u := xv.T.Underlying().(type) {
+		case *types.Slice:
+			i := se.idx(e.I)
+			return placeAddr{f.elemAddr(Addr{xv.L[0], xv.L[1], xv.L[2]}, u.Elem(), i), ""}, u.Elem(), true
+		case *types.Pointer:
+			if arr, ok := u.Elem().Underlying().(*types.Array); ok {
+				i := se.idx(e.I)
+				if f.l.cells(arr.Elem()) == 1 {
+					return placeAddr{Addr{xv.L[0], xv.L[1], bvadd(xv.L[2], i)}, ""}, arr.Elem(), true
+				}
+				return placeAddr{Addr{xv.L[0], bvadd(xv.L[1], i), xv.L[2]}, ""}, arr.Elem(), true
+			}
+		}
+		return placeAddr{}, nil, false
+	case SDeref:
+		p := se.eval(e.X, nil)
+		if derefType(p.T) == nil || p.Loc != nil {
+			return placeAddr{}, nil, false
+		}
+		return placeAddr{ptrAddr(p), not(eq(p.L[0], "0"))}, derefType(p.T), true
+	}
+	return placeAddr{}, nil, false
+}
+
+// lookupVar reports whether name is bound as a variable in this environment.
+func (se *SpecEnv) lookupVar(name string) (Val, bool) {
+	if v, ok := se.vars[name]; ok {
+		return v, true
+	}
+	if se.inOld {
+		if v, ok := se.oldVars[name]; ok {
+			return v, true
+		}
+	}
+	if name == "result" || strings.HasPrefix(name, "result") {
+		return Val{}, true
+	}
+	for _, rn := range se.resName {
+		if rn == name {
+			return Val{}, true
+		}
+	}
+	if se.locals != nil {
+		if v, ok := se.locals(name, se.state()); ok {
+			return v, true
+		}
+	}
+	if se.pkg != nil {
+		if _, ok := se.pkg.Scope().Lookup(name).(*types.Var); ok {
+			return Val{}, true
+		}
+	}
+	return Val{}, false
 }
